@@ -15,6 +15,29 @@ CHECKS = {
     ),
 }
 
+BOUNDED_NOTE = "BOUNDED stand-in, never counted as proved: no deductive verifier installed here models %s (DESIGN.md §0, §11). The check executes the contract, stated as an executable postcondition, on the real compiled code over the generated cases only."
+
+def bounded(text, why, design):
+    return dict(level="exploration", text=text, design=design, note=BOUNDED_NOTE % why,
+                technique="bounded check of an executable contract on the real code (stand-in permitted by the contract-verification family where no verifier reaches the function); exhaustive where stated")
+
+CHECKS.update({
+    "C10": dict(
+        level="proof",
+        text="Deductive proof (Verus) that the real get_type_size equals the size table, the real storage_slots_used equals Solidity's greedy layout for all sequences of sizes 8..256 (no overflow), struct_can_be_packed and both pack_* detectors report exactly the definitions whose declared order uses more slots than the ascending sort; three property lemmas (reported => a strictly better permutation exists; optimal order => not reported; sorting saves a slot => reported). Bounded native search (slot counter exhaustive up to length 5/6 over the 32 byte-granular sizes) supplies counterexamples and is not counted as proof.",
+        design="§8 C10, §9 C10",
+        note="Trusted: Verus/Z3, vstd, slice::sort contract (ascending permutation), clone contracts, walker contract (proved in unit ast), parser invariants on type sizes (requires-clauses, checked bounded).",
+        technique="contract-based deductive verification (Verus) of the real utils.rs / pack_*.rs functions + lemmas; bounded native search only for counterexamples",
+    ),
+    "C03": bounded("Executable postcondition of analyze_dir (result == multiset union of the per-file results over eligible files at any depth, no empty lists) on every directory-tree shape with <= 5 (quick) / 7 (thorough) entries and depth <= 3, every files/sub-directory listing interleaving observed through fs::read_dir, all three categories.", "the file system (fs::read_dir, PathBuf), HashMap iteration or recursion through directories", "§9 C03"),
+    "C16": bounded("Executable contract of the file filter inside analyze_dir: result == result with ineligible files removed, no ineligible file (any valid-Unicode name, any bytes) is read or makes the run panic, every eligible name is analysed; corner-case name lists x content kinds x positions in the tree.", "the file system or str::to_lowercase/ends_with on OS strings", "§9 C16"),
+    "C11": bounded("Executable postconditions of generate_*_report / generate_report: reading the '- file:line' entries back reproduces the findings; each list is preceded by its own pattern's section; a section appears iff the pattern has a finding. Every single pattern x 21 file/line shapes exhaustively + seeded random maps.", "String concatenation (Verus internal error on String + &str), by-value iteration over HashMap, integer to_string", "§9 C11-C13"),
+    "C12": bounded("Executable postconditions on totals and headings; ALL 16 subsets of the four vulnerability patterns x all 21 file/line shapes per pattern enumerated completely (234,256 maps) + all 64 category-state combinations of the whole report + seeded random maps.", "String concatenation, by-value iteration over HashMap, integer to_string", "§9 C11-C13"),
+    "C13": bounded("Relational check: the same findings set rendered from fresh HashMap instances (different hash seeds), permuted insertion orders of patterns and of (file, lines) vectors, and child processes must give byte-identical text equal to the canonical rendering.", "HashMap iteration order / per-process hash seeds", "§9 C11-C13"),
+    "C14": bounded("Executable contract of str_to_* / get_all_* over every documented name (scraped from docs/, README.md, Solstat.toml on each run) x casings, junk names rejected; precedence --path > toml path > ./contracts and exact pattern selection observed through hook H1 and the report of the real binary; unknown name => non-zero exit and no report.", "clap, toml, process exit status or str::to_lowercase", "§9 C14"),
+    "C18": bounded("Frame contract of a run of the real binary ('modifies exactly ./solstat_report.md, by replacement') checked by recursive before/after snapshots over trees x working directories x previous-report states, two runs in a row.", "the file system or process effects", "§9 C18"),
+})
+
 NOT_YET = {}
 
 
